@@ -19,10 +19,11 @@ Open Scope Z_scope.
 (* the two genuine defects recorded for C06 (known_findings.d/C06.json):
    fx_float  — the parser reads a float literal from its source spelling (fixes/C06-parser-float-spelling.diff)
                instead of the double Python parsed it to;
-   fx_hexint — hexnum_to_fraction accepts an empty integer part like the decimal path does *)
-Record lfixes := LFX { fx_float : bool; fx_hexint : bool }.
-Definition lit_as_coded := LFX false false.
-Definition lit_all_fixed := LFX true true.
+   fx_hexint — hexnum_to_fraction accepts an empty integer part like the decimal path does;
+   fx_negneg — the unary-minus fold of the parser negates a negative-zero literal to +0 *)
+Record lfixes := LFX { fx_float : bool; fx_hexint : bool; fx_negneg : bool }.
+Definition lit_as_coded := LFX false false false.
+Definition lit_all_fixed := LFX true true true.
 
 (* a literal's value: a rational or the negative zero *)
 Inductive lval := LNegZero | LQ (q : Q).
@@ -79,12 +80,11 @@ Definition eat_sign (s : list ascii) : bool * list ascii :=
   | [] => (false, [])
   end.
 
-(* [sign] digits [. digits] [E [sign] digits]  — at least one mantissa digit.
+(* digits [. digits] [E [sign] digits]  — at least one mantissa digit.
    `strict`: digits are required after a point (the grammar of Decnum/Hexnum
    strings); Python source literals (`strict = false`) may end in a point.
-   Result: (is the spelling negative, magnitude). *)
-Definition sci_denote (base eb : Z) (is_e : ascii -> bool) (us strict : bool) (s : list ascii) : option (bool * Q) :=
-  let '(neg, s1) := eat_sign s in
+   One accumulator runs through the integer and the fraction digits. *)
+Definition sci_body (base eb : Z) (is_e : ascii -> bool) (us strict : bool) (s1 : list ascii) : option Q :=
   let '(m1, n1, s2) := eat base us 0 0 s1 in
   let '(m, n2, dot, s3) :=
     match s2 with
@@ -96,18 +96,23 @@ Definition sci_denote (base eb : Z) (is_e : ascii -> bool) (us strict : bool) (s
   else if strict && dot && (n2 =? 0) then None
   else
     match s3 with
-    | [] => Some (neg, mkq m base n2 eb 0)
+    | [] => Some (mkq m base n2 eb 0)
     | c :: t =>
         if is_e c then
           let '(eneg, t1) := eat_sign t in
           let '(e, ne, t2) := eat 10 us 0 0 t1 in
           if ne =? 0 then None
           else match t2 with
-               | [] => Some (neg, mkq m base n2 eb (if eneg then - e else e))
+               | [] => Some (mkq m base n2 eb (if eneg then - e else e))
                | _ => None
                end
         else None
     end.
+
+(* [sign] body: (is the spelling negative, magnitude) *)
+Definition sci_denote (base eb : Z) (is_e : ascii -> bool) (us strict : bool) (s : list ascii) : option (bool * Q) :=
+  let '(neg, s1) := eat_sign s in
+  match sci_body base eb is_e us strict s1 with Some q => Some (neg, q) | None => None end.
 
 Definition signed (r : option (bool * Q)) : option lval :=
   match r with
@@ -126,29 +131,28 @@ Definition chars (s : string) : list ascii := list_ascii_of_string s.
 Definition dec_denote (strict : bool) (s : string) : option lval :=
   signed (sci_denote 10 10 (is_char "e") false strict (strip (chars s))).
 
-(* a hexadecimal-float string (the argument of fp.hexfloat): "-0x1.8p3" *)
+(* a hexadecimal-float string (the argument of fp.hexfloat): "-0x1.8p3":
+   [sign] 0x body, hexadecimal digits, binary exponent after `p` *)
 Definition hex_denote (s : string) : option lval :=
-  let t := strip (chars s) in
-  let '(neg, t1) := eat_sign t in
+  let '(neg, t1) := eat_sign (strip (chars s)) in
   match t1 with
   | z :: x :: t2 =>
       if is_char "0" z && is_char "x" x then
-        match t2 with
-        | c :: _ =>
-            if is_char "-" c || is_char "+" c then None    (* no sign after the prefix *)
-            else match sci_denote 16 2 (is_char "p") false true t2 with
-                 | Some (_, q) => signed (Some (neg, q))
-                 | None => None
-                 end
-        | [] => None
+        match sci_body 16 2 (is_char "p") false true t2 with
+        | Some q => signed (Some (neg, q))
+        | None => None
         end
       else None
   | _ => None
   end.
 
-(* a Python float literal as written in the source: "1_000.5E-3", "5.", ".5" *)
+(* a Python float literal as written in the source: "1_000.5E-3", "5.", ".5":
+   underscores are ignored and the exponent letter may be upper case
+   (Python reference, 2.4.6); digits need not follow the point *)
+Definition normalize_pyfloat (s : string) : list ascii :=
+  filter (fun c => negb (is_char "_" c)) (map lower (chars s)).
 Definition pyfloat_denote (s : string) : option lval :=
-  signed (sci_denote 10 10 (fun c => is_char "e" c || is_char "E" c) true false (chars s)).
+  signed (sci_denote 10 10 (is_char "e") false false (normalize_pyfloat s)).
 
 (* a Python integer literal: decimal, 0x / 0o / 0b prefixed, with underscores *)
 Definition pyint_denote (s : string) : option Z :=
@@ -174,6 +178,10 @@ Definition digits_denote (m e b : Z) : option lval :=
   else let d := b ^ (- e) in
        Some (LQ (if 0 <? d then Qmake m (Z.to_pos d) else Qmake (- m) (Z.to_pos (- d)))).
 
+(* exact negation with signed zeros *)
+Definition lneg (v : lval) : lval :=
+  match v with LNegZero => LQ 0 | LQ q => if Qeq_bool q 0 then LNegZero else LQ (Qopp q) end.
+
 (* ================================================================ B. model of the code *)
 Section Code.
 Variable fx : lfixes.
@@ -191,6 +199,51 @@ Fixpoint span (p : ascii -> bool) (s : list ascii) : list ascii * list ascii :=
    The character classes are pairwise disjoint, so the greedy scan is the
    regular expression's only way to match.  `relaxed`: D+\.D* is accepted too
    (the decimal pattern of fixes/C06-parser-float-spelling.diff). *)
+(* groups 2 and 5: the mantissa and the exponent *)
+Definition re_body (isd : ascii -> bool) (echar : ascii) (relaxed : bool) (s2 : list ascii)
+  : option (list ascii * option (list ascii)) :=
+  let '(ip, s3) := span isd s2 in
+  let mant_rest : option (list ascii * list ascii) :=
+    match s3 with
+    | c :: t =>
+        if is_char "." c then
+          let '(fp, s4) := span isd t in
+          match ip, fp with
+          | [], [] => None
+          | _ :: _, [] => if relaxed then Some (ip ++ [c], s4) else None
+          | _, _ :: _ => Some (ip ++ c :: fp, s4)
+          end
+        else match ip with [] => None | _ => Some (ip, s3) end
+    | [] => match ip with [] => None | _ => Some (ip, s3) end
+    end in
+  match mant_rest with
+  | None => None
+  | Some (mant, s5) =>
+      match s5 with
+      | [] => Some (mant, None)
+      | c :: t =>
+          if is_char echar c then
+            let '(es, t1) :=
+              match t with
+              | d :: t' => if is_char "-" d || is_char "+" d then ([d], t') else ([], t)
+              | [] => ([], [])
+              end in
+            let '(ed, t2) := span (is_digit 10) t1 in
+            match ed, t2 with
+            | _ :: _, [] => Some (mant, Some (es ++ ed))
+            | _, _ => None
+            end
+          else None
+      end
+  end.
+
+Fixpoint drop_prefix (p s : list ascii) : option (list ascii) :=
+  match p, s with
+  | [], _ => Some s
+  | a :: p', c :: s' => if is_char a c then drop_prefix p' s' else None
+  | _ :: _, [] => None
+  end.
+
 Definition re_sci (isd : ascii -> bool) (echar : ascii) (prefix : list ascii) (relaxed : bool) (s : list ascii)
   : option (option ascii * list ascii * option (list ascii)) :=
   let '(sg, s1) :=
@@ -198,49 +251,12 @@ Definition re_sci (isd : ascii -> bool) (echar : ascii) (prefix : list ascii) (r
     | c :: t => if is_char "-" c || is_char "+" c then (Some c, t) else (None, s)
     | [] => (None, [])
     end in
-  let fix drop (p s : list ascii) : option (list ascii) :=
-    match p, s with
-    | [], _ => Some s
-    | a :: p', c :: s' => if is_char a c then drop p' s' else None
-    | _ :: _, [] => None
-    end in
-  match drop prefix s1 with
+  match drop_prefix prefix s1 with
   | None => None
-  | Some s2 =>
-      let '(ip, s3) := span isd s2 in
-      let mant_rest : option (list ascii * list ascii) :=
-        match s3 with
-        | c :: t =>
-            if is_char "." c then
-              let '(fp, s4) := span isd t in
-              match ip, fp with
-              | [], [] => None
-              | _ :: _, [] => if relaxed then Some (ip ++ [c], s4) else None
-              | _, _ :: _ => Some (ip ++ c :: fp, s4)
-              end
-            else match ip with [] => None | _ => Some (ip, s3) end
-        | [] => match ip with [] => None | _ => Some (ip, s3) end
-        end in
-      match mant_rest with
-      | None => None
-      | Some (mant, s5) =>
-          match s5 with
-          | [] => Some (sg, mant, None)
-          | c :: t =>
-              if is_char echar c then
-                let '(es, t1) :=
-                  match t with
-                  | d :: t' => if is_char "-" d || is_char "+" d then ([d], t') else ([], t)
-                  | [] => ([], [])
-                  end in
-                let '(ed, t2) := span (is_digit 10) t1 in
-                match ed, t2 with
-                | _ :: _, [] => Some (sg, mant, Some (es ++ ed))
-                | _, _ => None
-                end
-              else None
-          end
-      end
+  | Some s2 => match re_body isd echar relaxed s2 with
+               | Some (mant, ex) => Some (sg, mant, ex)
+               | None => None
+               end
   end.
 
 (* int(s, base) on a string of digits: ValueError (None) on the empty string *)
@@ -295,31 +311,33 @@ Definition split_dot (mant : list ascii) : option (list ascii * list ascii) :=
   let '(a, r) := span (fun c => negb (is_char "." c)) mant in
   match r with _ :: b => Some (a, b) | [] => None end.
 
+(* the common tail of decnum_to_fraction / hexnum_to_fraction: split the
+   mantissa at the point and call _sci_to_fraction.  `zero_int`: an empty
+   integer part is replaced by '0' (the decimal path; the hexadecimal path
+   only with fixes/C06-hexnum-empty-integer-part.diff); `relaxed`: an empty
+   fraction part is dropped (only reachable with the patched decimal pattern) *)
+Definition mant_to_fraction (zero_int relaxed : bool) (sg : option ascii) (mant : list ascii)
+    (ex : option (list ascii)) (base b : Z) : option Q :=
+  match split_dot mant with
+  | Some (p0, p1) =>
+      let i := match p0 with [] => if zero_int then ["0"%char] else p0 | _ => p0 end in
+      let f := match p1 with [] => if relaxed then None else Some p1 | _ => Some p1 end in
+      sci_to_fraction sg i f ex base b
+  | None => sci_to_fraction sg mant None ex base b
+  end.
+
 (* decnum_to_fraction; `relaxed` = the patched pattern, which also accepts "12." *)
 Definition decnum_to_fraction (relaxed : bool) (s : list ascii) : option Q :=
   match re_sci (is_digit 10) "e" [] relaxed (strip s) with
   | None => None
-  | Some (sg, mant, ex) =>
-      match split_dot mant with
-      | Some (p0, p1) =>
-          let i := match p0 with [] => ["0"%char] | _ => p0 end in
-          let f := match p1 with [] => if relaxed then None else Some p1 | _ => Some p1 end in
-          sci_to_fraction sg i f ex 10 10
-      | None => sci_to_fraction sg mant None ex 10 10
-      end
+  | Some (sg, mant, ex) => mant_to_fraction true relaxed sg mant ex 10 10
   end.
 
 (* hexnum_to_fraction *)
 Definition hexnum_to_fraction (s : list ascii) : option Q :=
   match re_sci (is_digit 16) "p" ["0"%char; "x"%char] false (strip s) with
   | None => None
-  | Some (sg, mant, ex) =>
-      match split_dot mant with
-      | Some (p0, p1) =>
-          let i := match p0 with [] => if fx_hexint fx then ["0"%char] else p0 | _ => p0 end in
-          sci_to_fraction sg i (Some p1) ex 16 2
-      | None => sci_to_fraction sg mant None ex 16 2
-      end
+  | Some (sg, mant, ex) => mant_to_fraction (fx_hexint fx) false sg mant ex 16 2
   end.
 
 (* Decnum.as_real / Hexnum.as_real: r == 0 and val.lstrip().startswith('-') *)
@@ -358,9 +376,6 @@ Inductive lit :=
 (* FPy AST node produced for the literal: Integer or another RationalVal, or a Neg operation *)
 Inductive node := NInteger (v : Z) | NRat (v : lval) | NNegOp (a : node).
 
-Definition normalize_pyfloat (s : string) : list ascii :=
-  filter (fun c => negb (is_char "_" c)) (map lower (chars s)).
-
 (* Parser._parse_constant / _parse_hexfloat / _parse_rational / _parse_digits / _parse_unaryop *)
 Fixpoint parse (l : lit) : option node :=
   match l with
@@ -384,7 +399,9 @@ Fixpoint parse (l : lit) : option node :=
       match parse a with
       | Some (NInteger 0) => Some (NRat LNegZero)
       | Some (NInteger v) => Some (NInteger (- v))
-      | Some (NRat LNegZero) => Some (NRat LNegZero)       (* as_rational() == 0: folded to Decnum('-0.0') again *)
+      | Some (NRat LNegZero) =>
+          (* as coded: as_rational() == 0, folded to Decnum('-0.0') again; fixes/C06-neg-of-negative-zero.diff: +0 *)
+          if fx_negneg fx then Some (NInteger 0) else Some (NRat LNegZero)
       | Some (NRat (LQ q)) => if Qeq_bool q 0 then Some (NRat LNegZero) else Some (NNegOp (NRat (LQ q)))
       | Some (NNegOp a) => Some (NNegOp (NNegOp a))
       | None => None
@@ -396,10 +413,7 @@ Fixpoint eval_real (n : node) : lval :=
   match n with
   | NInteger v => LQ (inject_Z v)
   | NRat v => v
-  | NNegOp a => match eval_real a with
-                | LNegZero => LQ 0
-                | LQ q => if Qeq_bool q 0 then LNegZero else LQ (Qopp q)
-                end
+  | NNegOp a => lneg (eval_real a)
   end.
 
 Definition literal_value (l : lit) : option lval := option_map eval_real (parse l).
@@ -407,8 +421,6 @@ Definition literal_value (l : lit) : option lval := option_map eval_real (parse 
 End Code.
 
 (* ================================================================ what the source text denotes *)
-Definition lneg (v : lval) : lval :=
-  match v with LNegZero => LQ 0 | LQ q => if Qeq_bool q 0 then LNegZero else LQ (Qopp q) end.
 
 Fixpoint lit_denote (l : lit) : option lval :=
   match l with
